@@ -628,14 +628,17 @@ def check(c):
               '(c) value trees over small integers, one bound variable, units: evaluate(min) vs evaluate(full) vs exact reference when integer.')
     ok = c.proof(['C08'], extra_targets=['Extract/XLang.vo'])
     if c.tier == 'thorough' and ok:
-        # the fresh rebuild copies git-tracked files only
-        import subprocess, vlib
-        tracked = subprocess.run(['git', '-C', vlib.ROOT, 'ls-files', 'coq/Properties/C08.v', 'coq/Lang/ParserProofs.v'],
-                                 stdout=subprocess.PIPE).stdout.split()
-        if len(tracked) == 2:
+        # the fresh rebuild copies git-tracked files only: run it when every
+        # file named in coq/_CoqProject is tracked (otherwise the shared tree
+        # is mid-integration and the rebuild cannot succeed for any property)
+        import subprocess, os, vlib
+        tracked = set(subprocess.run(['git', '-C', vlib.ROOT, 'ls-files', 'coq'], stdout=subprocess.PIPE).stdout.decode().split())
+        listed = ['coq/' + l.strip() for l in open(os.path.join(vlib.COQ, '_CoqProject')) if l.strip().endswith('.v')]
+        missing = [f for f in listed if f not in tracked]
+        if not missing:
             c.thorough_proof(['C08'])
         else:
-            c.notes.append('thorough_proof (fresh rebuild + coqchk) skipped: coq/Lang and coq/Properties/C08.v are not committed yet')
+            c.notes.append('thorough_proof (fresh rebuild + coqchk) skipped: not committed yet: ' + ' '.join(missing[:6]))
     r = c.rng
     pay = learn_payloads(c)
 
